@@ -96,6 +96,15 @@ func (s *Store) CreateCheckpoint(operatorIDs, sourceRunnerIDs []string) (uint64,
 	return s.state.checkpointID, nil
 }
 
+// AbandonPendingCheckpoint drops a checkpoint that is still waiting for
+// acknowledgements. The job calls this when it starts a new assembly because the
+// nodes of the previous assembly will never complete it.
+func (s *Store) AbandonPendingCheckpoint() {
+	s.stateMu.Lock()
+	defer s.stateMu.Unlock()
+	s.state.pendingSnapshot = nil
+}
+
 func (s *Store) CreateSavepoint(operatorIDs, sourceRunnerIDs []string) (cpID uint64, created bool, err error) {
 	s.stateMu.Lock()
 	defer s.stateMu.Unlock()
